@@ -8,6 +8,9 @@ from .. import coqterm as ct
 from ..core import Prop
 
 KINDS = ["none", "mod", "pkg", "both"]
+# a plain directory / plain file named like the collection (no __init__.py): not candidates
+KINDS6 = KINDS + ["baredir", "barefile"]
+CAND = ("mod", "pkg", "both")
 NAMES = ["tasks", "altcoll"]
 ROOT_NAME = "c20v_rootcand"      # only name ever created in "/" (removed at once)
 DIRS = ["r", "d1", "d2", "d3", "d4"]
@@ -22,6 +25,17 @@ def mkcase(kinds, start, start_kind="abs", cwd=0, name="tasks", distractor=True,
          "name": ROOT_NAME if root != "none" else name, "distractor": distractor, "side": side, "root": root}
     if link is not None:
         c["link"] = list(link)
+    return c
+
+
+def with_opts(c, start_in=False, name_cfg=False):
+    """start_in: start inside the directory named like the collection at the start level;
+    name_cfg: load(None) with the name coming from config tasks.collection_name"""
+    c = dict(c)
+    if start_in:
+        c["start_in"] = True
+    if name_cfg:
+        c["name_cfg"] = True
     return c
 
 
@@ -97,11 +111,12 @@ class C20(Prop):
     def generate(self, rng, tier, n):
         for _ in range(n):
             depth = rng.choice([1, 2, 3, 3, 4, 4, 5, 5])
-            kinds = [rng.choice(["none", "none", "mod", "pkg", "both"]) for _ in range(depth)]
+            kinds = [rng.choice(["none", "none", "mod", "pkg", "both", "baredir", "barefile"])
+                     for _ in range(depth)]
             side = rng.choice(["none", "none", "mod", "pkg"]) if depth >= 1 else "none"
             starts = list(range(depth)) + (["side"] if side != "none" else [])
             start = rng.choice(starts)
-            sk = rng.choice(["abs", "abs", "abs", "slash", "rel"])
+            sk = rng.choice(["abs", "abs", "abs", "slash", "rel", "dot", "dotdot", "cwdnone"])
             cwd = 0
             if sk == "rel":
                 sd = 1 if start == "side" else start
@@ -118,13 +133,18 @@ class C20(Prop):
                         if link_applicable(kinds, m, lv)]
                 if opts:
                     link = list(rng.choice(opts))
-            yield mkcase(kinds, start, sk, cwd, rng.choice(NAMES), rng.random() < 0.7, side, root, link)
+            c = mkcase(kinds, start, sk, cwd, rng.choice(NAMES), rng.random() < 0.7, side, root, link)
+            yield with_opts(c, start_in=(sk != "rel" and start != "side" and rng.random() < 0.15),
+                            name_cfg=rng.random() < 0.15)
 
     def enumerate_small(self, tier):
         if tier == "quick":
             for kinds in itertools.product(KINDS, repeat=3):
                 for start in range(3):
                     yield mkcase(kinds, start)
+            for kinds in itertools.product(("none", "mod", "baredir", "barefile"), repeat=3):
+                yield mkcase(kinds, 2, distractor=False)
+                yield mkcase(kinds, 1, "dotdot", distractor=False)
             for kinds in (("none", "mod", "none"), ("pkg", "pkg", "none"), ("mod", "none", "both")):
                 for mode in ("file", "pkg", "dir"):
                     for lv in range(3):
@@ -146,6 +166,20 @@ class C20(Prop):
             for side in ("mod", "pkg"):
                 for start in (0, 1, 2, "side"):
                     yield mkcase(kinds, start, side=side, distractor=False)
+        # depth 3 with the two non-candidate kinds (plain directory / plain file named like the collection)
+        for kinds in itertools.product(KINDS6, repeat=4):
+            if not any(k in ("baredir", "barefile") for k in kinds):
+                continue
+            for start in range(4):
+                yield mkcase(kinds, start, distractor=False)
+        # other ways of naming the start: "<dir>/.", "<dir>/<sub>/..", start=None (cwd), inside the
+        # package directory, name from the configuration (depth 2)
+        for kinds in itertools.product(KINDS6, repeat=3):
+            for start in range(3):
+                for sk in ("dot", "dotdot", "cwdnone"):
+                    yield mkcase(kinds, start, sk, distractor=False)
+                yield with_opts(mkcase(kinds, start, distractor=False), start_in=True)
+                yield with_opts(mkcase(kinds, start, "cwdnone", distractor=False), start_in=True, name_cfg=True)
         # symlinked module / package / intermediate directory at every level (depth 2)
         for kinds in itertools.product(KINDS, repeat=3):
             for mode in ("file", "pkg", "dir"):
@@ -174,6 +208,15 @@ class C20(Prop):
 
         def put(d, kind, nm, linked=None):
             # WHERE records the directory the module is *found* in (d), also for link targets
+            if kind == "baredir":
+                os.makedirs(os.path.join(d, nm))
+                with open(os.path.join(d, nm, "notes.txt"), "w") as f:
+                    f.write("not a package\n")
+                return
+            if kind == "barefile":
+                with open(os.path.join(d, nm), "w") as f:
+                    f.write("not a module\n")
+                return
             if kind in ("mod", "both"):
                 body = "WHERE = %r\nKIND = 'mod'\n" % d
                 if linked == "file":
@@ -219,7 +262,10 @@ class C20(Prop):
     def _start_dir(self, case):
         if case["start"] == "side":
             return os.path.join(self.base, "r", "side")
-        return self._level_dir(case["start"])
+        d = self._level_dir(case["start"])
+        if case.get("start_in") and os.path.isdir(os.path.join(d, case["name"])):
+            return os.path.join(d, case["name"])
+        return d
 
     @staticmethod
     def _kind(case):
@@ -228,6 +274,13 @@ class C20(Prop):
         link = case.get("link")
         if case["start_kind"] == "rel" and link and link[0] == "dir" and link[1] <= case["cwd"]:
             return "abs"
+        if case["start_kind"] == "dotdot" and link and link[0] == "dir" and isinstance(case["start"], int) \
+                and link[1] == case["start"] + 1:
+            return "abs"      # <link>/.. is the parent of the link's *target*: lexical != physical
+        if case["start_kind"] == "cwdnone" and link:
+            top = 1 if case["start"] == "side" else case["start"]
+            if link[0] == "dir" and link[1] <= top or (case.get("start_in") and link[0] == "pkg"):
+                return "abs"
         return case["start_kind"]
 
     def _world(self, case):
@@ -236,13 +289,31 @@ class C20(Prop):
         name = case["name"]
         sdir = self._start_dir(case)
         cwd = self._level_dir(case["cwd"]) if self._kind(case) == "rel" else self.base
-        if self._kind(case) == "abs":
+        kind = self._kind(case)
+        extra_keys = []
+        if kind in ("abs", "cwdnone"):
             start = sdir
-        elif self._kind(case) == "slash":
+            if kind == "cwdnone":
+                cwd = sdir
+        elif kind == "slash":
             start = sdir + "/"
+        elif kind == "dot":
+            start = sdir + "/."
+            extra_keys.append((start, start))
+        elif kind == "dotdot":
+            # <start dir>/<sub>/.. : names the start directory through one of its subdirectories
+            lvl = case["start"] if isinstance(case["start"], int) else None
+            if lvl is not None and lvl + 1 < len(case["kinds"]) and not case.get("start_in"):
+                sub = os.path.join(sdir, DIRS[lvl + 1])
+            else:
+                sub = os.path.join(sdir, "zzsub")
+                os.makedirs(sub, exist_ok=True)
+            start = sub + "/.."
+            extra_keys.append((start, start))
+            extra_keys.append((sub, sub))
         else:
             start = os.path.relpath(sdir, cwd)
-        keys = []
+        keys = list(extra_keys)
         d = sdir
         while True:
             keys.append((d, d))
@@ -284,10 +355,19 @@ class C20(Prop):
             if not hasattr(self, "_cfg"):
                 self._cfg = Config()
             try:
-                module, parent = FilesystemLoader(start=start, config=self._cfg).load(name)
+                cfg = self._cfg
+                if case.get("name_cfg"):
+                    cfg = Config(overrides={"tasks": {"collection_name": name}})
+                given_start = None if self._kind(case) == "cwdnone" else start
+                loader = FilesystemLoader(start=given_start, config=cfg)
+                module, parent = loader.load(None if case.get("name_cfg") else name)
                 raw = {"loaded": [module.__file__, parent]}
                 ab = {"loaded": [os.path.abspath(module.__file__), os.path.abspath(parent)]}
                 ok_content = getattr(module, "WHERE", None) == os.path.abspath(parent)
+                # the module stays registered under its name and its directory leads sys.path
+                # (what makes siblings / relative imports work, also later at task run time)
+                ok_content = ok_content and sys.modules.get(name) is module \
+                    and os.path.normpath(sys.path[0]) == os.path.normpath(os.path.dirname(module.__file__))
             except CollectionNotFound:
                 raw = ab = {"exc": "CollectionNotFound"}
                 ok_content = True
@@ -331,20 +411,20 @@ class C20(Prop):
         """reference answer computed from the case alone: ('level', i) / ('base-or-above') / 'root' / None"""
         chain = []
         if case["start"] == "side":
-            if case["side"] != "none":
+            if case["side"] in CAND:
                 return ("side", None)
             top = 0
         else:
             top = case["start"]
         for i in range(top, -1, -1):
-            if case["kinds"][i] != "none":
+            if case["kinds"][i] in CAND:
                 return ("level", i)
         if case["root"] != "none":
             return ("root", None)
         return None
 
     def nontrivial(self, case, obs):
-        return any(k != "none" for k in case["kinds"]) or case["side"] != "none" or case["root"] != "none"
+        return any(k in CAND for k in case["kinds"]) or case["side"] != "none" or case["root"] != "none"
 
     def classify(self, case, obs):
         o = obs["raw"]
@@ -353,12 +433,19 @@ class C20(Prop):
         return "%s:%s:depth=%d%s" % (case["start_kind"], what, len(case["kinds"]) - 1, lk)
 
     def finding_of(self, case, obs):
+        if self._kind(case) == "dotdot" and "loaded" in obs["raw"] and isinstance(case["start"], int):
+            # F-C20c: <start>/<sub>/.. makes the walk look into <sub> before the ancestors of <start>
+            s = case["start"]
+            if s + 1 < len(case["kinds"]) and case["kinds"][s] not in CAND and case["kinds"][s + 1] in CAND \
+                    and not case.get("start_in"):
+                return "F-C20c"
+            return None
         if obs["raw"].get("exc") != "CollectionNotFound":
             return None
         near = self._nearest(case)
         if near is None:
             return None
-        if self._kind(case) in ("abs", "slash"):
+        if self._kind(case) in ("abs", "slash", "dot", "dotdot", "cwdnone"):
             # only the root holds a candidate: '/' is never examined from below
             return "F-C20" if near[0] == "root" else None
         # relative start: nothing at or above the cwd is examined
@@ -378,8 +465,16 @@ class C20(Prop):
             yield dict(case, distractor=False)
         if case["side"] != "none" and case["start"] != "side":
             yield dict(case, side="none")
-        if case["start_kind"] == "slash":
+        if case["start_kind"] in ("slash", "dot", "cwdnone"):
             yield dict(case, start_kind="abs")
+        for f in ("start_in", "name_cfg"):
+            if case.get(f):
+                c = dict(case)
+                del c[f]
+                yield c
+        for i, k in enumerate(kinds):
+            if k in ("baredir", "barefile"):
+                yield dict(case, kinds=kinds[:i] + ["none"] + kinds[i + 1:])
         if case["root"] != "none":
             yield dict(case, root="none", name="tasks")
         top = 1 if case["start"] == "side" else case["start"]
@@ -428,18 +523,34 @@ class C20(Prop):
     def _siblings(self):
         from invoke.loader import FilesystemLoader
         fails, n = [], 0
-        for kind in ("mod", "linkmod", "linkdir", "pkg"):
+        for kind in ("mod", "collide", "linkmod", "linkdir", "pkg", "pkg-late", "mod-late"):
             for start_rel in ("p", "p/q"):
                 top = self._fresh()
                 d = os.path.join(top, "p")
+                early = None
+                if kind == "collide":
+                    # a module of the sibling's name sits in a directory that is already first on sys.path
+                    early = os.path.join(top, "early")
+                    os.makedirs(early)
+                    open(os.path.join(early, "c20v_sib.py"), "w").write("VALUE = 'early-on-sys-path'\n")
                 if kind == "linkdir":
                     # p itself is a symlink to a directory elsewhere; siblings live "in p"
                     shutil.rmtree(d)
                     os.makedirs(os.path.join(top, "elsewhere", "real_p", "q"))
                     os.symlink(os.path.join(top, "elsewhere", "real_p"), d)
-                if kind in ("mod", "linkdir"):
+                if kind in ("mod", "linkdir", "collide"):
                     open(os.path.join(d, "c20v_sib.py"), "w").write("VALUE = 'sib-%s'\n" % kind)
                     open(os.path.join(d, "tasks.py"), "w").write("import c20v_sib\nVALUE = c20v_sib.VALUE\n")
+                elif kind == "mod-late":
+                    # the sibling is imported when the task body runs, not at load time
+                    open(os.path.join(d, "c20v_sib.py"), "w").write("VALUE = 'sib-mod-late'\n")
+                    open(os.path.join(d, "tasks.py"), "w").write(
+                        "def late():\n    import c20v_sib\n    return c20v_sib.VALUE\n")
+                elif kind == "pkg-late":
+                    os.makedirs(os.path.join(d, "tasks"))
+                    open(os.path.join(d, "tasks", "c20v_sib.py"), "w").write("VALUE = 'sib-pkg-late'\n")
+                    open(os.path.join(d, "tasks", "__init__.py"), "w").write(
+                        "def late():\n    from . import c20v_sib\n    return c20v_sib.VALUE\n")
                 elif kind == "linkmod":
                     # tasks.py is a symlink into another directory; the sibling sits next to the link
                     os.makedirs(os.path.join(top, "shared"))
@@ -454,8 +565,10 @@ class C20(Prop):
                         "from . import c20v_sib\nVALUE = c20v_sib.VALUE\n")
 
                 def go():
+                    if early:
+                        sys.path.insert(0, early)
                     m, parent = FilesystemLoader(start=os.path.join(top, start_rel)).load("tasks")
-                    return m.VALUE, parent
+                    return (m.late() if kind.endswith("-late") else m.VALUE), parent
                 n += 1
                 try:
                     val, parent = self._isolated(go)
@@ -464,8 +577,9 @@ class C20(Prop):
                 except Exception as e:  # noqa
                     fails.append({"case": {"kind": kind, "start": start_rel}, "what": repr(e)})
         return {"name": "sibling-importable", "evaluations": n, "failures": fails,
-                "note": "tasks.py (plain, symlinked, or inside a symlinked directory) importing a sibling module "
-                        "next to it / tasks package importing a submodule relatively"}
+                "note": "tasks.py (plain, symlinked, inside a symlinked directory, with a same-named module "
+                        "earlier on sys.path) importing a sibling module next to it / tasks package importing a "
+                        "submodule relatively; at load time and later from inside a task body"}
 
     def _project_path(self):
         from invoke import Program
